@@ -151,9 +151,11 @@ def run_config(c: dict) -> dict:
     ids = make_ids()
     rng = np.random.RandomState(c["seed"] + 7)
     init_kt = ttb.ktensor([rng.rand(s, rank) for s in shape], np.ones(rank))
-    if c.get("eye"):
-        # a guess whose columns are exactly orthogonal (coordinate vectors): the Gram matrices have exact zeros
-        init_kt = ttb.ktensor([np.roll(np.eye(s, rank), k, axis=0) for k, s in enumerate(shape)], np.ones(rank))
+    if c.get("eye") and c["kind"] == "dense":     # (positive dense data: no component of the guess is orthogonal to it)
+        # a guess whose columns are exactly orthogonal (disjoint supports covering every row, so that no component is
+        # orthogonal to the data): the Gram matrices have exact zeros
+        init_kt = ttb.ktensor([np.array([[1.0 if (i + k) % rank == r else 0.0 for r in range(rank)] for i in range(s)])
+                               for k, s in enumerate(shape)], np.ones(rank))
     dimorder = np.array(c["dimorder"], dtype=int)
     optdims = np.array(c["optdims"], dtype=int)
 
